@@ -134,7 +134,6 @@ def run(ctx):
         by_lim.setdefault(rng.randrange(len(limits_pool)), []).append(it)
     for li, its in by_lim.items():
         extra = {"limits": limits_pool[li]} if limits_pool[li] else {}
-        extra["timeout_ms"] = 20000
         extra["perms"] = {"regex": True}
         outs, cases = batch.run_items(ctx, its, per_program=12, case_extra=extra, dump={"per": 24, "nodes": 800}, name=f"C01_surface{li}")
         for it, out, case in zip(its, outs, cases):
@@ -186,7 +185,7 @@ def run(ctx):
         progs.append((t, "mutant"))
     cases = []
     for i, (src, fam) in enumerate(progs):
-        c = {"id": f"C01-{fam}-{i}", "source": src, "dump": {"per": 24, "nodes": 800}, "timeout_ms": 20000, "rng_seed": 3, "meta": {"fam": fam}, "perms": {"regex": True}}
+        c = {"id": f"C01-{fam}-{i}", "source": src, "dump": {"per": 24, "nodes": 800}, "rng_seed": 3, "meta": {"fam": fam}, "perms": {"regex": True}}
         lim = rng.choice(limits_pool)
         if lim:
             c["limits"] = lim
